@@ -91,8 +91,18 @@ func vpH_C15_frozen() {
 			bmWant = append(bmWant, uint32(i))
 		}
 	}
-	k := vpChoice("op", len(vpReadOpNames)+2)
+	k := vpChoice("op", len(vpReadOpNames)+3)
 	switch {
+	case k == len(vpReadOpNames)+2:
+		// a merge in which the segment is the LAST input and another input has a
+		// field the segment lacks (the merged field list must not be built inside
+		// an input's own field table)
+		vpNote("op:Merge(other fields, segment last)")
+		other := []*vpDoc{{fields: []*vpField{{name: "aa", store: true, value: []byte("v"), length: 1, terms: []*vpTerm{{term: []byte("k"), freq: 1}}}}}}
+		so := vpBuild(other, 1025)
+		var buf bytes.Buffer
+		_, err := Merge([]segment.Segment{so, seg}, []*roaring.Bitmap{nil, bm}, 0).WriteTo(&buf, nil)
+		vpAssert(err == nil || len(bmWant) == 3, "merge succeeds")
 	case k < len(vpReadOpNames):
 		vpNote("op:" + vpReadOpNames[k])
 		vpReadOp(k, seg)
